@@ -48,3 +48,241 @@ Proof.
   - intros s l s' Hs H. eapply step_pol_ok; eauto.
   - apply pol_new_ok.
 Qed.
+
+(* ================================================================================================
+   Provenance (C01, C07): every (key, conflict, value, expiration) held anywhere in the cache was supplied by
+   a logged Set call for that very key, the expiration being that call's time plus its ttl.
+   ================================================================================================ *)
+From Ristretto Require Import Cache.StoreProofs.
+
+Definition exp_of (t ttl : Z) : Z := if ttl =? 0 then 0 else t + ttl.
+
+Definition supplied (log : list event) (k cf v : N) (exp : Z) : Prop :=
+  exists tid cost ttl t, In (ECall tid (OSet k cf v cost ttl) t) log /\ 0 <= ttl /\ exp = exp_of t ttl.
+
+Lemma supplied_cons log e k cf v exp : supplied log k cf v exp -> supplied (e :: log) k cf v exp.
+Proof. intros (tid & cost & ttl & t & H & H1 & H2). exists tid, cost, ttl, t. split; [now right|auto]. Qed.
+
+Definition item_ok (log : list event) (i : item) : Prop :=
+  it_wait i = None -> it_flag i <> FDel -> supplied log (it_key i) (it_conf i) (it_val i) (it_exp i).
+
+Definition item_sup (log : list event) (i : item) : Prop :=
+  supplied log (it_key i) (it_conf i) (it_val i) (it_exp i).
+Definition cpc_ok (log : list event) (pc : cpc) : Prop :=
+  match pc with
+  | CSetUpd i | CSetSend i => item_sup log i
+  | _ => True
+  end.
+Definition apc_ok (log : list event) (a : apc) : Prop :=
+  match a with
+  | AGot i => it_flag i <> FDel -> item_sup log i
+  | ANewSet i _ => item_sup log i
+  | _ => True
+  end.
+
+(* what a logged return may say, relative to the log before it *)
+Definition ev_ok (log : list event) (e : event) : Prop :=
+  match e with
+  | ERet tid (OGet k c) (RVal v true) =>
+      (* the value was supplied by a Set of that very key (same hash, matching conflict) that had begun before,
+         and the Get was called no later than the expiration instant fixed by that Set *)
+      exists cf exp now rest, log = ECall tid (OGet k c) now :: rest /\
+        (c = 0%N \/ c = cf) /\ supplied rest k cf v exp /\ (exp = 0 \/ now <= exp)
+  | ERet _ (OGetTTL k c) (RTtl d true) =>
+      d = 0 \/ exists tid cf v cost ttl t, In (ECall tid (OSet k cf v cost ttl) t) log /\ 0 < d <= ttl
+  | _ => True
+  end.
+Fixpoint log_ok (log : list event) : Prop :=
+  match log with
+  | [] => True
+  | e :: l => ev_ok l e /\ log_ok l
+  end.
+
+Definition times_ok (log : list event) (now : Z) : Prop :=
+  forall tid o t, In (ECall tid o t) log -> 0 < t <= now.
+
+Record prov_inv (s : state) : Prop := {
+  pv_store : store_all (fun k it => supplied (s_log s) k (si_conf it) (si_val it) (si_exp it)) (s_store s);
+  pv_buf : Forall (item_ok (s_log s)) (s_buf s);
+  pv_threads : forall tid t, s_threads s !! tid = Some t -> cpc_ok (s_log s) (t_pc t);
+  pv_apc : apc_ok (s_log s) (s_apc s);
+  pv_log : log_ok (s_log s);
+  pv_times : times_ok (s_log s) (s_now s);
+  pv_pos : 0 < s_now s
+}.
+
+Lemma item_ok_cons log e i : item_ok log i -> item_ok (e :: log) i.
+Proof. unfold item_ok. intros H H1 H2. apply supplied_cons. auto. Qed.
+Lemma item_sup_cons log e i : item_sup log i -> item_sup (e :: log) i.
+Proof. apply supplied_cons. Qed.
+Lemma cpc_ok_cons log e pc : cpc_ok log pc -> cpc_ok (e :: log) pc.
+Proof. destruct pc; simpl; auto using item_sup_cons. Qed.
+Lemma apc_ok_cons log e a : apc_ok log a -> apc_ok (e :: log) a.
+Proof. destruct a; simpl; auto using item_sup_cons. Qed.
+Lemma store_prov_cons log e st :
+  store_all (fun k it => supplied log k (si_conf it) (si_val it) (si_exp it)) st ->
+  store_all (fun k it => supplied (e :: log) k (si_conf it) (si_val it) (si_exp it)) st.
+Proof. intros H. eapply store_all_impl; [exact H|]. intros k it. apply supplied_cons. Qed.
+
+Lemma item_ok_set_flag log i f : f <> FDel -> item_ok log i -> it_flag i <> FDel -> item_ok log (set_flag i f).
+Proof. unfold item_ok; simpl. auto. Qed.
+Lemma item_ok_set_cost log i z : item_ok log i -> item_ok log (set_cost i z).
+Proof. unfold item_ok; simpl. auto. Qed.
+Lemma item_ok_marker log id : item_ok log (marker id).
+Proof. unfold item_ok; simpl. discriminate. Qed.
+Lemma item_ok_tombstone log k c : item_ok log (tombstone k c).
+Proof. unfold item_ok; simpl. congruence. Qed.
+
+Lemma threads_ok_insert log (ths : gmap nat cthread) tid t :
+  (forall tid' t', ths !! tid' = Some t' -> cpc_ok log (t_pc t')) -> cpc_ok log (t_pc t) ->
+  forall tid' t', <[tid := t]> ths !! tid' = Some t' -> cpc_ok log (t_pc t').
+Proof.
+  intros H Ht tid' t' Hl. destruct (decide (tid' = tid)) as [->|Hne].
+  - rewrite lookup_insert in Hl. now inversion Hl; subst.
+  - rewrite lookup_insert_ne in Hl by auto. eauto.
+Qed.
+
+Lemma threads_ok_cons log e (ths : gmap nat cthread) :
+  (forall tid' t', ths !! tid' = Some t' -> cpc_ok log (t_pc t')) ->
+  forall tid' t', ths !! tid' = Some t' -> cpc_ok (e :: log) (t_pc t').
+Proof. intros H tid' t' Hl. apply cpc_ok_cons. eauto. Qed.
+
+Lemma get_thread_pc_ok s tid :
+  (forall tid' t', s_threads s !! tid' = Some t' -> cpc_ok (s_log s) (t_pc t')) ->
+  cpc_ok (s_log s) (t_pc (get_thread s tid)).
+Proof.
+  intros H. unfold get_thread. destruct (s_threads s !! tid) eqn:E; simpl; eauto.
+Qed.
+
+Lemma times_ok_cons log now e :
+  times_ok log now -> (forall tid o t, e = ECall tid o t -> 0 < t <= now) -> times_ok (e :: log) now.
+Proof. intros H He tid o t [->|Hin]; eauto. Qed.
+
+Lemma Forall_item_cons log e l : Forall (item_ok log) l -> Forall (item_ok (e :: log)) l.
+Proof. intros H. eapply List.Forall_impl; [|exact H]. intros i. apply item_ok_cons. Qed.
+
+Ltac log_mono :=
+  repeat first [ apply supplied_cons | apply store_prov_cons | apply Forall_item_cons | apply apc_ok_cons
+               | apply cpc_ok_cons | apply item_sup_cons | apply item_ok_cons ].
+
+Ltac solve_store Hst :=
+  log_mono;
+  first [ exact Hst
+        | apply store_all_empty
+        | match goal with
+          | E : store_update _ _ _ _ _ _ _ _ = _ |- _ => eapply (store_update_all _ _ _ _ _ _ _ _ _ _ _ _ E); [exact Hst|]
+          | E : store_set _ _ _ _ _ _ _ _ = _ |- _ => eapply (store_set_all _ _ _ _ _ _ _ _ _ _ _ E); [exact Hst|]
+          | E : store_del _ _ _ _ _ = _ |- _ => eapply (store_del_all _ _ _ _ _ _ _ _ _ E); exact Hst
+          | E : store_del_expired _ _ _ _ _ _ = _ |- _ => eapply (store_del_expired_all _ _ _ _ _ _ _ _ _ _ E); exact Hst
+          end ].
+
+
+Ltac solve_threads Hth Hgt :=
+  first [ exact Hth
+        | (apply threads_ok_insert; [ log_mono; exact Hth || (intros ? ? ?; log_mono; eauto) | ]) ].
+
+Lemma threads_mono log log' (ths : gmap nat cthread) :
+  (forall pc, cpc_ok log pc -> cpc_ok log' pc) ->
+  (forall tid' t', ths !! tid' = Some t' -> cpc_ok log (t_pc t')) ->
+  forall tid' t', ths !! tid' = Some t' -> cpc_ok log' (t_pc t').
+Proof. intros Hm H tid' t' Hl. eauto. Qed.
+
+
+Lemma ev_ok_get_hit s tid k c v :
+  store_all (fun k it => supplied (s_log s) k (si_conf it) (si_val it) (si_exp it)) (s_store s) ->
+  store_get (s_store s) (s_now s) k c = (v, true) ->
+  ev_ok (ECall tid (OGet k c) (s_now s) :: s_log s) (ERet tid (OGet k c) (RVal v true)).
+Proof.
+  intros Hst Hg. apply store_get_hit in Hg. destruct Hg as (it & Hl & <- & Hc & He).
+  simpl. exists (si_conf it), (si_exp it), (s_now s), (s_log s). split; [reflexivity|].
+  split; [exact Hc|]. split; [eapply Hst; eauto|exact He].
+Qed.
+
+Lemma ev_ok_ttl s tid k :
+  store_all (fun k it => supplied (s_log s) k (si_conf it) (si_val it) (si_exp it)) (s_store s) ->
+  times_ok (s_log s) (s_now s) ->
+  (store_expiration (s_store s) k =? 0) = false -> (store_expiration (s_store s) k <? s_now s) = false ->
+  forall c, ev_ok (s_log s) (ERet tid (OGetTTL k c) (RTtl (store_expiration (s_store s) k - s_now s) true)).
+Proof.
+  intros Hst Htm H0 H1 c. simpl. unfold store_expiration in *.
+  destruct (s_store s !! k) as [it|] eqn:E; [|discriminate].
+  destruct (Hst _ _ E) as (tid' & cost & ttl & t & Hin & Httl & Hexp).
+  apply Z.eqb_neq in H0. apply Z.ltb_ge in H1.
+  destruct (Z.eq_dec (si_exp it - s_now s) 0) as [->|Hd]; [now left|right].
+  exists tid', (si_conf it), (si_val it), cost, ttl, t. split; [exact Hin|].
+  specialize (Htm _ _ _ Hin). unfold exp_of in Hexp.
+  destruct (Z.eqb_spec ttl 0); lia.
+Qed.
+
+Lemma step_prov c s l s' : prov_inv s -> mstep c s l = Some s' -> prov_inv s'.
+Proof.
+  intros [Hst Hbuf Hth Hapc Hlog Htm Hpos] H.
+  pose proof (fun tid => get_thread_pc_ok s tid Hth) as Hgt.
+  step_cases H.
+  all: try (match goal with
+            | Hpc : t_pc (get_thread _ ?tid) = _ |- _ =>
+                let Hx := fresh "Hx" in pose proof (Hgt tid) as Hx; rewrite Hpc in Hx; simpl in Hx
+            end).
+  all: try (match goal with Hb : Forall _ (_ :: _) |- _ => inversion Hb as [|? ? Hhd Htl]; subst end).
+  all: simpl in Hapc.
+  all: constructor; msimpl.
+  all: repeat match goal with Hb : s_buf _ = _ |- context [s_buf _] => rewrite Hb end.
+  all: repeat match goal with Ha : s_apc _ = _ |- context [s_apc _] => rewrite Ha end.
+  (* store *)
+  all: try solve [solve_store Hst; unfold item_sup in *; log_mono; assumption].
+  (* buffer *)
+  all: try solve [log_mono; first [exact Hbuf | assumption]].
+  all: try solve [apply List.Forall_app; split; [log_mono; exact Hbuf|];
+                  constructor; [|constructor];
+                  first [apply item_ok_tombstone | apply item_ok_marker | (intros _ _; log_mono; assumption)]].
+  (* applier pc *)
+  all: try solve [log_mono; exact Hapc].
+  all: try exact I.
+  all: try solve [simpl; unfold item_sup in *; simpl; auto].
+  (* threads *)
+  all: try solve [ apply threads_ok_insert;
+                   [ eapply threads_mono; [|exact Hth]; intros pc Hpc; log_mono; exact Hpc
+                   | simpl; first [exact I | log_mono; assumption | (unfold item_sup in *; simpl; log_mono; assumption) ] ] ].
+  all: try solve [ eapply threads_mono; [|exact Hth]; intros pc Hpc; log_mono; exact Hpc ].
+  (* times *)
+  all: try solve [ repeat (apply times_ok_cons; [|intros ? ? ? [=]; subst; lia]); exact Htm ].
+  (* log *)
+  all: try exact Hlog.
+  all: try solve [ simpl; repeat split; try exact I; try exact Hlog ].
+  all: try solve [ simpl; split; [|exact Hlog]; destruct o; simpl; auto;
+                   match goal with |- context [RBool ?b] => destruct b end; auto ].
+  (* a new Set call supplies its own item *)
+  all: try solve [ apply threads_ok_insert;
+                   [ eapply threads_mono; [|exact Hth]; intros pc Hpc; log_mono; exact Hpc |];
+                   simpl; unfold item_sup; simpl;
+                   eexists _, _, _, _; split; [left; reflexivity|]; split; [lia|]; unfold exp_of;
+                   match goal with |- context [?a =? 0] => destruct (Z.eqb_spec a 0) end; try lia; reflexivity ].
+  all: try solve [ simpl; split; [|split; [exact I|exact Hlog]]; eapply ev_ok_get_hit; eauto ].
+  all: try solve [ simpl; split; [|exact Hlog]; apply ev_ok_ttl; assumption ].
+  all: try solve [ apply threads_ok_insert; [ eapply threads_mono; [|exact Hth]; intros pc Hpc; log_mono; exact Hpc |];
+                   simpl; log_mono; apply Hgt ].
+  all: try solve [ intros tid' o' t' Hin; specialize (Htm _ _ _ Hin); lia ].
+  all: try solve [ simpl; intros Hfl; apply Hhd; auto ].
+  all: try solve [ simpl; apply Hapc; congruence ].
+  all: try solve [ repeat match goal with Hd : (_ <? _) = false |- _ => apply Z.ltb_ge in Hd end; lia ].
+  all: try solve [ intros tid' o' t' Hin; specialize (Htm _ _ _ Hin);
+                   repeat match goal with Hd : (_ <? _) = false |- _ => apply Z.ltb_ge in Hd end; lia ].
+Qed.
+
+Lemma init_prov maxCost bdur now mon : 0 < now -> prov_inv (init_state maxCost bdur now mon).
+Proof.
+  intros Hpos. constructor; simpl; auto using store_all_empty.
+  - intros tid t H. rewrite lookup_empty in H. discriminate.
+  - intros tid o t [].
+Qed.
+
+Theorem reachable_prov c maxCost bdur now mon sched : 0 < now ->
+  prov_inv (mrun c (init_state maxCost bdur now mon) sched).
+Proof.
+  intros Hpos. apply (mrun_invariant c prov_inv).
+  - intros s l s' Hs H. eapply step_prov; eauto.
+  - now apply init_prov.
+Qed.
+
+Lemma log_ok_split l1 e l2 : log_ok (l1 ++ e :: l2) -> ev_ok l2 e.
+Proof. induction l1 as [|x l1 IH]; simpl; intros [H1 H2]; auto. Qed.
